@@ -242,6 +242,9 @@ struct Explorer {
 	void inCallbackMore(int kind, int state, int meth, void* control);
 	void liveChecks(Runner& r, Exec& x);
 	void afterExec(const Node& node, Exec& x);
+	void checkC02(const Node& node, Exec& x);
+	Snap initialSnap;
+	std::vector<int> initialEnters;
 
 	void process(const Node& node, Exec& x) {
 		if (props & P_C01) checkC01(x);
@@ -254,8 +257,8 @@ struct Explorer {
 	// alphabet
 
 	std::vector<int> kindsAll() const {
-		std::vector<int> k = {T_CHANGE, T_RESTART, T_RESUME, T_SELECT};
-		if (E::utilityOn()) { k.push_back(T_UTILIZE); k.push_back(T_RANDOMIZE); }
+		std::vector<int> k;
+		for (int kk : {T_CHANGE, T_RESTART, T_RESUME, T_SELECT, T_UTILIZE, T_RANDOMIZE}) if (E::kindAllowed(kk)) k.push_back(kk);
 		return k;
 	}
 
@@ -363,6 +366,18 @@ struct Explorer {
 	void explore() {
 		std::deque<Node> frontier;
 		Node root{{}, "", 0, false};
+		{	// reference for reset(): the first activation with default answers
+			Runner r;
+			r.env.monitoring = false;
+			Step c; c.op.type = OP_CONSTRUCT;
+			r.apply(c, opt.fill);
+#if VT_MANUAL
+			Step en; en.op.type = OP_ENTER;
+			r.apply(en, opt.fill);
+#endif
+			initialSnap = r.snap();
+			for (const TraceEv& e : r.env.trace) if (e.meth == M_ENTER && e.layer == 0) initialEnters.push_back(e.state);
+		}
 		// initial state(s): construction (with deviations in the initial activation for Automatic)
 		{
 			Op c; c.type = OP_CONSTRUCT;
